@@ -32,6 +32,11 @@ import (
 )
 
 func normalizePackage(info *types.Info, files []*ast.File) {
+	if len(files) > 0 {
+		if pkg := pkgOfFiles(info, files); pkg != nil {
+			normalizeResultStructs(info, pkg, files)
+		}
+	}
 	for _, f := range files {
 		for _, d := range f.Decls {
 			if fd, ok := d.(*ast.FuncDecl); ok && fd.Body != nil {
@@ -233,4 +238,17 @@ func mergeCommaOk(info *types.Info, list []ast.Stmt) []ast.Stmt {
 		out = append(out, list[i])
 	}
 	return out
+}
+
+func pkgOfFiles(info *types.Info, files []*ast.File) *types.Package {
+	for _, f := range files {
+		for _, d := range f.Decls {
+			if fd, ok := d.(*ast.FuncDecl); ok {
+				if o := info.Defs[fd.Name]; o != nil {
+					return o.Pkg()
+				}
+			}
+		}
+	}
+	return nil
 }
